@@ -1,3 +1,4 @@
+import os
 from vf.core import Property, Harness, Unit, REPO
 from .units_llc import LLC
 
@@ -17,14 +18,18 @@ def recv_cases(cfg):
         def add(adv, ln, mode): cs.append({'CFG': cfg, 'ADV': adv, 'LEN': ln, 'MODE': mode})
         for adv in ADV_OF_CFG[cfg]:
             if tier == 'quick':
-                lens0 = [0, 1, 2, 14, 35, 36, 37, 39] if cfg in (0, 1) else [14, 35, 36, 37]
-                lens1 = [36, 35, 37] if adv in (0, 1) else [36]
+                lens0 = [0, 2, 14, 35, 36, 37] if cfg in (0, 1) else ([35, 36, 37] if cfg in (2, 5) else [36])
+                lens1 = [36, 35, 37] if (adv in (0, 1) and cfg in (0, 1, 2)) else [36]
             else:
                 lens0 = list(range(0, 42))
                 lens1 = list(range(0, 42))
             for ln in lens0: add(adv, ln, 0)
             for ln in lens1: add(adv, ln, 1)
             add(adv, 36, 2)
+        flt = os.environ.get('VF_C25_FILTER')          # debugging aid: "ADV=1,LEN=36,MODE=0"
+        if flt:
+            want = dict(kv.split('=') for kv in flt.split(','))
+            cs = [c for c in cs if all(str(c.get(k)) == v for k, v in want.items())]
         return cs
     return f
 
@@ -37,7 +42,7 @@ def mk_recv(cfg):
     return Harness('c25_recv_cfg%d' % cfg, LLC[cfg], 'harness/c25_recv.c', recv_cases(cfg), unwind=50, timeout=900,
                    description='handle_adv_receive() / adv_received() of the real link layer on a symbolic received buffer (size by case split), symbolic own address, '
                                'directed target, white list and filter switches',
-                   bounds='buffer sizes quick: 0, 1, 2, 14, 35, 36, 37, 39 (handle_adv_receive) and 35, 36, 37 (adv_received); thorough: every size 0..41; '
+                   bounds='buffer sizes quick: 0, 2, 14, 35, 36, 37 (handle_adv_receive; 35..37 / 36 only for the smaller option sets) and 35, 36, 37 (adv_received); thorough: every size 0..41; '
                           'every byte of the buffer symbolic incl. PDU type, TxAdd / RxAdd and the length field; white list of 3 entries, 0..3 in use')
 
 
